@@ -21,7 +21,7 @@ RING = dict(pre_subst=[(r'\.dequeue<false, pop_retries>\(', '.dequeue_np(', 'tpl
                        (r'reinterpret_cast<T&>\((\w+\[\w+\])\)\.~T\(\);', r'XV_DESTROY(\1);', 'dtor_call'),
                        (r'\bdata\.~T\(\);', 'XV_DESTROY(data);', 'dtor_call_ref'),
                        (r'T& data = reinterpret_cast<T&>\((\w+\[\w+\])\);', r'T& data = \1;', 'storage_ref'),
-                       (r'new \(&(\w+\[\w+\])\) T\(std::move\((\w+)\)\);', r'XV_CONSTRUCT_MOVE(\1, \2);', 'placement_new')],
+                       (r'new \(&(\w+(?:\[\w+\])?)\) T\(std::move\((\w+)\)\);', r'XV_CONSTRUCT_MOVE(\1, \2);', 'placement_new')],      # the cell: an array element or a named reference to one,
             methods={'dequeue_np': 'RING_dequeue', 'enqueue_ff': 'RING_enqueue_ff'},
             members=['_capacity', '_remap_shift', '_storage', '_allocated_queue', '_free_queue'])
 UNIT = dict(
